@@ -444,10 +444,10 @@ fn c25_tb_raw_encrypted_field_decrypt_same_pointers() {
 // Pointer-to-integer casts make CBMC's object encoding explode, so instead of recording slice
 // addresses this cipher records the LENGTHS it is handed and the bytes at harness-chosen (arbitrary)
 // positions; "for an arbitrary index the byte agrees" is "the slices are equal".
-static P_CALLS: AtomicU8 = AtomicU8::new(0);
-static P_LEN: [AtomicUsize; 3] = [AtomicUsize::new(0), AtomicUsize::new(0), AtomicUsize::new(0)];
-static P_IDX: [AtomicUsize; 3] = [AtomicUsize::new(0), AtomicUsize::new(0), AtomicUsize::new(0)];
-static P_BYTE: [AtomicU8; 3] = [AtomicU8::new(0), AtomicU8::new(0), AtomicU8::new(0)];
+static P_CALLS: crate::verif_common::Ghost<AtomicU8> = crate::verif_common::Ghost::new(0x6782ddf2c678b067, AtomicU8::new(0));
+static P_LEN: crate::verif_common::Ghost<[AtomicUsize; 3]> = crate::verif_common::Ghost::new(0x675752466f7e9b7e, [AtomicUsize::new(0), AtomicUsize::new(0), AtomicUsize::new(0)]);
+static P_IDX: crate::verif_common::Ghost<[AtomicUsize; 3]> = crate::verif_common::Ghost::new(0x67012123f9ea056f, [AtomicUsize::new(0), AtomicUsize::new(0), AtomicUsize::new(0)]);
+static P_BYTE: crate::verif_common::Ghost<[AtomicU8; 3]> = crate::verif_common::Ghost::new(0x67720e294bb298e1, [AtomicU8::new(0), AtomicU8::new(0), AtomicU8::new(0)]);
 struct ProbeCipher {
     decrypt_ok: bool,
 }
